@@ -41,7 +41,7 @@ macro_rules! agg_entry {
 agg_entry!(agg_naive_48, aggregate_48, 48, 12, 52);
 //@ h=agg_naive_128 props=C01,C07 cfgs=K1 tier=q t=900 | funcs: naive::aggregate_128 | bound: all 128 counters x all ordered quartiles
 agg_entry!(agg_naive_128, aggregate_128, 128, 32, 132);
-//@ h=agg_naive_256 props=C01,C07 cfgs=K1 tier=q t=1200 | funcs: naive::aggregate_256 | bound: all 256 counters x all ordered quartiles
+//@ h=agg_naive_256 props=C01,C07 cfgs=K1 tier=t t=2400 | funcs: naive::aggregate_256 | bound: all 256 counters x all ordered quartiles
 agg_entry!(agg_naive_256, aggregate_256, 256, 64, 260);
 
 // the public entry points without SIMD are the naive functions
@@ -66,7 +66,7 @@ macro_rules! agg_dispatch {
 }
 //@ h=agg_dispatch_48 props=C01,C07 cfgs=K0,K1 tier=q t=600 | funcs: bucket_aggregation::aggregate_48 | bound: all inputs: entry point == naive implementation (no SIMD feature)
 agg_dispatch!(agg_dispatch_48, aggregate_48, 48, 12, 52);
-//@ h=agg_dispatch_128 props=C01,C07 cfgs=K0,K1 tier=q t=900 | funcs: bucket_aggregation::aggregate_128 | bound: all inputs
+//@ h=agg_dispatch_128 props=C01,C07 cfgs=K1 tier=t t=1800 | funcs: bucket_aggregation::aggregate_128 | bound: all inputs
 agg_dispatch!(agg_dispatch_128, aggregate_128, 128, 32, 132);
 //@ h=agg_dispatch_256 props=C01,C07 cfgs=K1 tier=t t=1200 | funcs: bucket_aggregation::aggregate_256 | bound: all inputs
 agg_dispatch!(agg_dispatch_256, aggregate_256, 256, 64, 260);
